@@ -58,7 +58,7 @@ real_t _kendall_corr(const arr_real& x, const arr_real& y) noexcept {
     int n_d = 0;
     for (int i = 0; i < (n - 1); ++i) {
         for (int k = (i + 1); k < n; ++k) {
-            if (y[i] < y[k]) {
+            if (ybyx[i] < ybyx[k]) {
                 ++n_c;
             } else {
                 ++n_d;
